@@ -214,11 +214,18 @@ impl Operation {
 
     #[doc(hidden)]
     pub fn assign_path_param_name(&mut self, name: impl Into<std::borrow::Cow<'static, str>>) {
+        let name = name.into();
         if let Some(empty_param) = self.parameters.iter_mut()
             .filter(|p| p.is_path())
             .find(|p| p.name.is_empty())
         {
-            empty_param.name = name.into();
+            empty_param.name = name;
+        } else if !self.parameters.iter().any(|p| p.is_path() && p.name == name) {
+            /* a template parameter the handler doesn't take is a required parameter of the path all the same:
+               every `{name}` of a path template must be declared */
+            let mut param = Parameter::in_path(crate::string());
+            param.name = name;
+            self.parameters.push(param);
         }
     }
 
